@@ -1,8 +1,8 @@
 """All jobs and the property table."""
-from . import jobs_util, jobs_perm, jobs_aead, jobs_spec, jobs_clean, jobs_hash, jobs_l2, jobs_prng, native
+from . import jobs_util, jobs_perm, jobs_aead, jobs_spec, jobs_clean, jobs_hash, jobs_l2, jobs_prng, jobs_ct, native, facts
 
 JOBS = {}
-for mod in (jobs_util, jobs_perm, jobs_aead, jobs_spec, jobs_clean, jobs_hash, jobs_l2, jobs_prng):
+for mod in (jobs_util, jobs_perm, jobs_aead, jobs_spec, jobs_clean, jobs_hash, jobs_l2, jobs_prng, jobs_ct):
     for j in mod.JOBS:
         assert j["name"] not in JOBS, j["name"]
         JOBS[j["name"]] = j
@@ -235,6 +235,55 @@ PROPS["C18"] = {
     "note": "the libc/OS contract (32-byte requests are all-or-error, errno set on failure) is assumed in stubs/os_entropy.c; the /dev/urandom read() fallback is not selectable with this platform's headers and is out of scope.",
     "technique": "CBMC loop contract with termination measure on the real retry loop; OS calls as contract stubs with a ghost fault script",
     "trusted": TRUSTED,
+}
+
+def _all_campaigns(tier, seed, root):
+    """C06 fallback: every native differential campaign (guard bytes around every output, NULL/0 arguments)"""
+    texts = []
+    for fn in (native.aead_campaign, native.lib_campaign("hash"), native.lib_campaign("hmac"), native.lib_campaign("hkdf"),
+               native.lib_campaign("pbkdf2"), native.lib_campaign("prng"), native.lib_campaign("clean")):
+        r = fn(tier, seed, root)
+        if r.get("violation"):
+            return r
+        texts.append(r["text"])
+    return {"text": " | ".join(t.split(": ", 1)[-1] for t in texts)}
+
+
+C06_JOBS = (UTIL + LEAF + names("aead", ["enc", "dec"], ["grid"]) + names("siv", ["enc", "dec"], ["grid"]) + names("aead", ["dec"], ["short"])
+            + names("siv", ["dec"], ["short"]) + HASH_Q + ["hkdf.expand.sm", "hkdf.oneshot.cap", "pbkdf2.shape.blocks.c0", "pbkdf2.shape.blocks.c1",
+               "pbkdf2.shape.chain", "prng.generate.budget", "prng.set_limit", "prng.feed.budget", "prng.reseed.budget", "prng.init.budget",
+               "clean.exact", "clean.arena", "free.hmac", "free.hkdf", "free.prng", "trng.getrandom", "trng.getentropy", "trng.syscall",
+               "hmac.rfc2104.grid.0", "hmac.rfc2104.grid.5", "hkdf.step.grid.4", "hkdf.extract.grid.0", "pbkdf2.grid.1", "prng.ops.fn.0", "prng.generate.fn.4"])
+PROPS["C06"] = {
+    "level": "proof",
+    "quick": C06_JOBS,
+    "thorough": C06_JOBS + names("aead", ["enc", "dec"], ["u", "ui"]) + names("siv", ["enc", "dec"], ["u", "ui"]) + ["hash.update.u"]
+                + [n for n in JOBS if n.startswith(("hmac.rfc2104.grid.", "hkdf.step.grid.", "hkdf.extract.grid.", "pbkdf2.grid.", "prng.ops.fn.", "prng.generate.fn."))],
+    "campaign": _all_campaigns,
+    "text": "for every API function reached by the harnesses: CBMC's pointer-dereference, array-bounds, signed-overflow, undefined-shift and division checks on the real code, with every caller buffer an object of EXACTLY the declared length (any access outside the declared range is an object-bounds failure), symbolic lengths closed by loop contracts (absorb, check_tag, clean, hkdf_expand, pbkdf2, prng_generate, trng retry; message loops in the thorough tier) or concrete on the grids, loop and function frames (assigns clauses), 'inputs unchanged' at ghost indices, NULL with zero length (AEAD/SIV AD and message, hash_update), exact aliasing c == m (in-place variants), guard bytes behind outputs.",
+    "note": "outputs never depend on uninitialised memory: CBMC gives uninitialised memory nondeterministic values, so every functional postcondition (C01-C04, C08-C15) proves independence for that output; there is no separate definedness check. memcpy(dst, NULL, 0) (hash_update(st, NULL, 0) with posn > 0, NULL salts) accesses nothing; ISO C before C2y calls it undefined - recorded as an observation, not a violation. Alignment: CBMC's memory model is alignment-insensitive; all buffer accesses in the code are byte-wide; code that inspects pointer bits is covered by the alignment-offset grids. Optimised production objects and sanitizer builds are not covered.",
+    "technique": "CBMC safety obligations + frame (assigns) obligations on the real code under contracts, exact-size objects, loop contracts",
+    "trusted": TRUSTED,
+}
+CT_JOBS = [j["name"] for j in jobs_ct.JOBS]
+PROPS["C07"] = {
+    "level": "other",
+    "quick": CT_JOBS,
+    "text": "BOUNDED, control flow only: 2-safety self-composition on branch traces (goto-instrument --branch hook at every conditional branch): each operation runs twice on equal public inputs (concrete lengths, counts, key-length classes) and independent symbolic secrets; the two sequences of branch decisions must be identical for all secret values. Covered: check_tag, the 12 AEAD/SIV functions with setup/absorb/generate_tag, the three C permutations, hash init/update/finalize, HMAC (key-length classes 0, 20, 64, 65, 80).",
+    "note": "bounded public shapes (listed per job); memory ADDRESSES are not traced (the code has no secret-indexed table lookups: every index is a loop counter or posn - supporting observation, not a proof); compiled machine code at -O2/-O3 is outside a source-level verifier; HKDF/PBKDF2/PRNG control flow depends only on public counters and is covered through their HMAC/hash callees plus the state-machine proofs, not by separate trace jobs.",
+    "technique": "CBMC self-composition over instrumented branch traces (bounded public shapes)",
+    "trusted": TRUSTED,
+    "explanation": "bounded model checking of a 2-safety (non-interference) property on branch traces of the real C code; complete in the secret values for each listed public shape, not a proof for all shapes, no statement about addresses or machine code",
+}
+PROPS["C19"] = {
+    "level": "other",
+    "quick": ["hash.oneshot.seq", "hash.init", "hkdf.oneshot.cap", "leaf128.setup", "leaf128.tag", "util.check_tag.contract", "clean.arena", "free.prng", "trng.getrandom", "prng.init.budget"],
+    "pre": [facts.library_facts],
+    "text": "(1) frames: every function under contract writes only objects reachable from its pointer arguments (assigns clauses and exact-size objects turn any other write into a failed obligation); (2) facts read from the goto binary of the WHOLE library built from the current tree: no writable object with static storage duration is defined by library code and no heap or non-reentrant libc function is called. From (1) and (2) two calls on disjoint objects have disjoint frames and read no shared mutable location, hence commute.",
+    "note": "thread SCHEDULES are not explored (CBMC's concurrency support is not part of this technique): 'concurrent calls equal serial execution' follows from the disjoint-frame argument, which is a stated meta-step; the symbol-table scan is a supporting static fact, not a deductive proof. errno (thread-local in glibc) is written by the OS calls in the TRNG.",
+    "technique": "contract frames (CBMC assigns obligations) + symbol-table / call-graph facts of the goto binary",
+    "trusted": TRUSTED,
+    "explanation": "frame obligations are discharged deductively per function; absence of global state is established by scanning the symbol table and call graph of the library's goto binary on every run; schedules are not explored",
 }
 
 ALL = ["C%02d" % i for i in range(1, 21)]
